@@ -14,8 +14,9 @@ OPS = ['shell', 'exec_out', 'root', 'reboot', 'streaming_shell', 'list', 'stat',
        'list_empty', 'stat_empty', 'pull_empty', 'push_empty']
 ALPHABET = ['connect_ok', 'fail_nokeys', 'fail_badauth', 'fail_timeout', 'fail_refused', 'close'] + OPS + GEN
 SMALL = ['connect_ok', 'fail_nokeys', 'fail_refused', 'close', 'shell', 'pull_path', 'push_dir']
+MEDIUM = ['connect_ok', 'fail_timeout', 'fail_refused', 'close', 'shell', 'pull_path', 'push_dir', 'gen_create', 'gen_step', 'op_unanswered']
 BOUNDS = {
-    'quick': 'all sequences of length <= 3 over the %d-letter alphabet %s; sync+async' % (len(ALPHABET), ALPHABET),
+    'quick': 'all sequences of length <= 3 over the %d-letter alphabet %s, and of length 4 over the 10-letter alphabet %s; sync+async' % (len(ALPHABET), ALPHABET, MEDIUM),
     'thorough': 'additionally all sequences of length 4 and 5 over the 7-letter alphabet %s' % SMALL,
 }
 VALIDATE_EVERY = {'quick': 40, 'thorough': 40}
@@ -187,6 +188,8 @@ def shapes(tier, seed):
     for impl in ('sync', 'async'):
         for a in ALPHABET:
             out.append({'h': 'history', 'impl': impl, 'alphabet': ALPHABET, 'prefix': [a], 'length': 3})
+        for a in MEDIUM:
+            out.append({'h': 'history', 'impl': impl, 'alphabet': MEDIUM, 'prefix': [a], 'length': 4})
         if not q:
             for a in SMALL:
                 for b in SMALL:
